@@ -19,7 +19,7 @@ func init() {
 		Explanation: "Structural necessary conditions of 'Reset returns the world to a reusable empty state': " +
 			"(R1) field exhaustiveness of the reset chain discovered from World.Reset: for every struct on the chain, every field is reset by the struct's reset function (assigned, cleared, or its own reset called) or listed as persistent with a reason; early returns in reset functions are only the nothing-to-reset idiom; a field in neither class fails closed; " +
 			"(R2) every registered filter and every observer of every event slice is detached (its id set to the unregistered marker) and counters and aggregates are cleared; (R3) no loop bound of a narrow unsigned type can wrap around; " +
-			"(R4) relation archetypes reset every active table and then purge all lookup containers (C04/R3); (R5) the lock test precedes everything (C07/R1). Not decided: equivalence with a fresh world over a second history.",
+			"(R4) relation archetypes reset every active table and then purge all lookup containers (C04/R3); (R5) the lock test precedes everything (C07/R1); (R6 = C06/R8) the reset chain does not operate on range-value copies of the structures it resets. Not decided: equivalence with a fresh world over a second history.",
 		TrustedBase: []string{"go/types", "frozen classification of the ~90 fields on the reset chain (reset / persistent with reason)", "interval arithmetic over Go's integer types"},
 		Rules: []Rule{
 			{ID: "C16/R1", Run: c16r1, Min: 1},
@@ -28,6 +28,7 @@ func init() {
 			{ID: "C16/R4", Run: c16r4, Min: 1},
 			{ID: "C16/R4b", Run: c04r3, Min: 1},
 			{ID: "C16/R5", Run: c16r5, Min: 1},
+			{ID: "C06/R8", Run: c06r8, Min: 1},
 		},
 	})
 }
@@ -291,75 +292,89 @@ func c16r1(c *core.Ctx) {
 			}
 			return true
 		})
-		var keys []string
-		for k := range ri.nodes {
-			keys = append(keys, k)
-		}
-		sort.Strings(keys)
-		for _, k := range keys {
-			set := map[ast.Node]bool{}
-			for _, n := range ri.nodes[k] {
-				if n != nil {
-					set[n] = true
-				}
-			}
-			// buffer and derived pointer are one obligation
-			for owner, bp := range bufferPairs {
-				if k == owner+"."+bp[0] || k == owner+"."+bp[1] {
-					for _, n := range append(append([]ast.Node{}, ri.nodes[owner+"."+bp[0]]...), ri.nodes[owner+"."+bp[1]]...) {
-						if n != nil {
-							set[n] = true
-						}
-					}
-				}
-			}
-			if len(set) == 0 {
-				continue
-			}
-			// a reset inside a loop over the elements is passed when the loop is reached: zero iterations mean
-			// that there is nothing to reset
-			type span struct{ lo, hi token.Pos }
-			var headers []span
-			for n := range set {
-				var outer ast.Stmt
-				core.InspectNoLits(ri.f.Body, func(x ast.Node) bool {
-					switch l := x.(type) {
-					case *ast.ForStmt:
-						if outer == nil && l.Body.Pos() <= n.Pos() && n.End() <= l.Body.End() {
-							outer = l
-							headers = append(headers, span{l.Pos(), l.Body.Lbrace})
-						}
-					case *ast.RangeStmt:
-						if outer == nil && l.Body.Pos() <= n.Pos() && n.End() <= l.Body.End() {
-							outer = l
-							headers = append(headers, span{l.Pos(), l.Body.Lbrace})
-						}
-					}
-					return true
-				})
-			}
-			passes := func(n ast.Node) bool {
-				if set[n] {
-					return true
-				}
-				for _, h := range headers {
-					if h.lo <= n.Pos() && n.End() <= h.hi {
-						return true
-					}
-				}
-				return false
-			}
-			subject := ri.f.Name + ": " + k + " on all paths"
-			if passedOnAllPathsExcept(m, ri.f, passes, exemptExit) {
-				c.OK("C16/R1", subject, c.At(ri.f.Pos()), "reset on every normal path (exits under a nothing-to-reset test excepted)")
-			} else {
-				c.Violation("C16/R1", subject, c.At(ri.f.Pos()), fmt.Sprintf("%s resets %s only on some paths: a normal path reaches a return without it and without a nothing-to-reset test; part of the state may be left un-reset", ri.f.Name, k))
-			}
+		for _, miss := range keysNotOnAllPaths(c, ri.f, ri.nodes, exemptExit, func(k string) {
+			c.OK("C16/R1", ri.f.Name+": "+k+" on all paths", c.At(ri.f.Pos()), "reset on every normal path (exits under a nothing-to-reset test excepted)")
+		}) {
+			c.Violation("C16/R1", ri.f.Name+": "+miss+" on all paths", c.At(ri.f.Pos()), fmt.Sprintf("%s resets %s only on some paths: a normal path reaches a return without it and without a nothing-to-reset test; part of the state may be left un-reset", ri.f.Name, miss))
 		}
 	}
 	if len(types_) < 3 {
 		c.Undecide("C16/R1", "chain", fmt.Sprintf("reset chain discovered from World.Reset has only %d types: %v", len(types_), tnames))
 	}
+}
+
+// keysNotOnAllPaths: nodes maps a key (a field) to the nodes of f that handle it. A key is fine when every normal path
+// from the entry of f to a return passes one of its nodes, where a node inside a loop counts as passed when the loop
+// is reached (zero iterations mean there is nothing to handle) and returns listed in exempt are ignored. Buffer and
+// derived pointer of a buffer pair are one obligation. Returns the keys that are handled on some paths only; ok is
+// called for the others.
+func keysNotOnAllPaths(c *core.Ctx, f *core.Func, nodes map[string][]ast.Node, exempt map[*ast.ReturnStmt]bool, ok func(string)) []string {
+	m := c.M
+	var bad []string
+	var keys []string
+	for k := range nodes {
+		keys = append(keys, k)
+	}
+	sort.Strings(keys)
+	for _, k := range keys {
+		set := map[ast.Node]bool{}
+		for _, n := range nodes[k] {
+			if n != nil {
+				set[n] = true
+			}
+		}
+		for owner, bp := range bufferPairs {
+			if k == owner+"."+bp[0] || k == owner+"."+bp[1] {
+				for _, n := range append(append([]ast.Node{}, nodes[owner+"."+bp[0]]...), nodes[owner+"."+bp[1]]...) {
+					if n != nil {
+						set[n] = true
+					}
+				}
+			}
+		}
+		if len(set) == 0 {
+			continue
+		}
+		type span struct{ lo, hi token.Pos }
+		var headers []span
+		for n := range set {
+			var outer ast.Stmt
+			core.InspectNoLits(f.Body, func(x ast.Node) bool {
+				switch l := x.(type) {
+				case *ast.ForStmt:
+					if outer == nil && l.Body.Pos() <= n.Pos() && n.End() <= l.Body.End() {
+						outer = l
+						headers = append(headers, span{l.Pos(), l.Body.Lbrace})
+					}
+				case *ast.RangeStmt:
+					if outer == nil && l.Body.Pos() <= n.Pos() && n.End() <= l.Body.End() {
+						outer = l
+						headers = append(headers, span{l.Pos(), l.Body.Lbrace})
+					}
+				}
+				return true
+			})
+		}
+		passes := func(n ast.Node) bool {
+			if set[n] {
+				return true
+			}
+			for _, h := range headers {
+				if h.lo <= n.Pos() && n.End() <= h.hi {
+					return true
+				}
+			}
+			return false
+		}
+		if passedOnAllPathsExcept(m, f, passes, exempt) {
+			if ok != nil {
+				ok(k)
+			}
+		} else {
+			bad = append(bad, k)
+		}
+	}
+	return bad
 }
 
 // writtenAfterConstruction returns the name of a function that stores into the field (or into what it holds) and is
